@@ -32,6 +32,10 @@ def coerce_iter_for_extend(I, target, val):
     if isinstance(target, PBytearray) or (isinstance(target, SSeq) and target.kind == 'bytearray'):
         if isinstance(val, (str, PStr)):
             I.raise_py('TypeError', "can't concat str to bytearray")
+        if isinstance(val, SView):
+            if val.kind in ('bytes', 'bytearray') or getattr(val, 'byte_range', False):
+                return val
+            raise OutOfSubset('extend bytearray with symbolic-length %s' % val.kind)
         if isinstance(val, SSeq):
             if val.kind in ('bytes', 'bytearray'):
                 return val
